@@ -145,6 +145,37 @@ pub fn h_configure_collect_vec<M: VMode>() {
     });
 }
 
+/// The configured repetition used directly as a parser (`IterConfigure::go` / `TryIterConfigure::go`: no
+/// collect): same acceptance and position as the statically configured repetition.
+pub fn h_configure_go<M: VMode, const TRY: bool>() {
+    run::<u8, VS, u16, _>(|inp, s0| {
+        inp.state.quiet = true;
+        let ctx = ch::any_u16();
+        let want = (ctx % 4) as usize;
+        let mut item = anyp_multi::<SymIn<u8>, XC>(0, B);
+        item.progress = true;
+        item.bounded = true;
+        let r = if TRY {
+            item.repeated().try_configure(move |cfg, c: &u16, _span| Ok(cfg.exactly((*c % 4) as usize))).with_ctx(ctx).gov::<M>(inp)
+        } else {
+            item.repeated().configure(move |cfg, c: &u16| cfg.exactly((*c % 4) as usize)).with_ctx(ctx).gov::<M>(inp)
+        };
+        let s = snap(inp);
+        let (live, chain, n, pos, _items) = greedy(inp, &s0, true, want);
+        vassert!(!live, "FW/driver-bound-sufficient");
+        ch::assume(!live);
+        vcover!(r.is_ok() && n == 2, "configure go: two items, as configured");
+        vcover!(r.is_err() && n == 1, "configure go: fewer items than configured");
+        vassert!(chain, "C02/configure_go.greedy-item-attempts-in-sequence-stopping-at-first-failure-or-cap");
+        vassert2!(r.is_ok() == (n == want), "C02/configure_go.succeeds-iff-exactly-the-configured-count", "C15/configure_go.matches-as-the-statically-configured-parser");
+        if r.is_ok() {
+            vassert!(s.pos == pos && s.believed == s.pos, "C02/configure_go.position-just-after-last-accepted-item");
+        } else {
+            vassert!(s.alt.is_some(), "C20/configure_go.failure-leaves-pending-error");
+        }
+    });
+}
+
 harnesses! {
     #[kani::unwind(5)]
     repeated_collect_vec_emit_b3 = h_repeated_collect_vec::<Emit>;
@@ -152,4 +183,10 @@ harnesses! {
     repeated_collect_vec_check_b3 = h_repeated_collect_vec::<Check>;
     #[kani::unwind(5)]
     configure_collect_vec_emit_b3 = h_configure_collect_vec::<Emit>;
+    #[kani::unwind(5)]
+    configure_go_emit_b3 = h_configure_go::<Emit, false>;
+    #[kani::unwind(5)]
+    configure_go_check_b3 = h_configure_go::<Check, false>;
+    #[kani::unwind(5)]
+    try_configure_go_emit_b3 = h_configure_go::<Emit, true>;
 }
